@@ -195,7 +195,7 @@ var _ rpc.Resources
 //@   requires s != nil
 //@   ensures[C08] old(s.direct) >= 0 ==> s.direct >= 0
 //@   ensures[C08] old(s.direct + s.indirect + s.indirectsent) == 0 ==> s.direct == old(s.direct)
-//@   ensures[C08] old(s.direct + s.indirect + s.indirectsent) != 0 && direct ==> s.direct == old(s.direct) - count
+//@   ensures[C08] old(s.direct + s.indirect + s.indirectsent) != 0 && direct ==> s.direct == ite(count > old(s.direct), 0, old(s.direct) - count)
 //@   ensures[C08] !direct ==> s.direct == old(s.direct)
 //@   ensures[C08] forall x *Subscription :: x != s ==> x.direct == old(x.direct)
 //@   ensures !tryDelete ==> (forall x *Subscription :: x.state == old(x.state) && x.resourceSub == old(x.resourceSub) && x.refs == old(x.refs) &&
@@ -294,7 +294,7 @@ var _ rpc.Resources
 // told, and access is requested again for every waiting callback)
 //@   ensures[C05,C06,C07] old(s.state) != stateDisposed && old(s.flags & flagAccessStale) != 0 ==> invoked() == old(invoked()) &&
 //@       callcount("retryStaleAccess") == old(callcount("retryStaleAccess")) + 1
-//@   assert[C05,C06] s.retryStaleAccess#1: s.flags & flagAccessCalled == 0 && s.access == old(s.access) && len(arg0) == old(len(s.accessCallbacks))
+//@   assert[C04,C05,C06,C07,C19] s.retryStaleAccess#1: s.flags & flagAccessCalled == 0 && s.access == old(s.access) && len(arg0) == old(len(s.accessCallbacks))
 //@   safety[C15]
 //@   loop 1 invariant invoked() == old(invoked()) + rangeidx1 && len(cbs) == old(len(s.accessCallbacks))
 //@   loop 1 invariant[C04,C06,C07,C19] rangeidx1 == 0 ==> s.accessCallbacks == nil && s.flags & flagAccessCalled == 0 &&
@@ -308,7 +308,7 @@ var _ rpc.Resources
 // told, and access is requested again for every waiting callback)
 //@   ensures[C05,C06,C07] old(s.state) != stateDisposed && old(s.flags & flagAccessStale) != 0 ==> invoked() == old(invoked()) &&
 //@       callcount("retryStaleAccess") == old(callcount("retryStaleAccess")) + 1
-//@   assert[C05,C06] s.retryStaleAccess#2: s.flags & flagAccessCalled == 0 && s.access == old(s.access) && len(arg0) == old(len(s.accessCallbacks))
+//@   assert[C04,C05,C06,C07,C19] s.retryStaleAccess#2: s.flags & flagAccessCalled == 0 && s.access == old(s.access) && len(arg0) == old(len(s.accessCallbacks))
 //@   safety[C15]
 //@   loop 1 invariant invoked() == old(invoked()) + rangeidx1 && len(cbs) == old(len(s.accessCallbacks))
 //@   loop 1 invariant[C04,C06,C07] rangeidx1 == 0 ==> s.accessCallbacks == nil && s.flags & flagAccessCalled == 0 &&
@@ -1208,13 +1208,13 @@ var _ rpc.Resources
 //@ closure (*wsConn).GetResource#1
 //@   requires predConnOK(c) && predSubOf(sub, c)
 //@   resolves[C07] cb exactly-once
-//@   ensures[C08] err != nil && !old(c.disposing) && old(predCounts(sub)) != 0 ==> sub.direct == old(sub.direct) - 1
+//@   ensures[C08] err != nil && !old(c.disposing) && old(predCounts(sub)) != 0 ==> sub.direct == ite(old(sub.direct) >= 1, old(sub.direct) - 1, 0)
 //@   safety[C15]
 //@ closure (*wsConn).GetResource#2
 //@   assumes predSubsOK(c)
 //@   requires[C04] predConnOK(c) && predSubOf(sub, c) && err == nil
 //@   resolves[C07] cb exactly-once
-//@   ensures[C08] old(sub.Error()) != nil && !old(c.disposing) && old(predCounts(sub)) != 0 ==> sub.direct == old(sub.direct) - 1
+//@   ensures[C08] old(sub.Error()) != nil && !old(c.disposing) && old(predCounts(sub)) != 0 ==> sub.direct == ite(old(sub.direct) >= 1, old(sub.direct) - 1, 0)
 //@   safety[C15]
 
 //@ func (*wsConn).SubscribeResource
@@ -1226,13 +1226,13 @@ var _ rpc.Resources
 //@ closure (*wsConn).SubscribeResource#1
 //@   requires predConnOK(c) && predSubOf(sub, c)
 //@   resolves[C07] cb exactly-once
-//@   ensures[C08] err != nil && !old(c.disposing) && old(predCounts(sub)) != 0 ==> sub.direct == old(sub.direct) - 1
+//@   ensures[C08] err != nil && !old(c.disposing) && old(predCounts(sub)) != 0 ==> sub.direct == ite(old(sub.direct) >= 1, old(sub.direct) - 1, 0)
 //@   safety[C15]
 //@ closure (*wsConn).SubscribeResource#2
 //@   assumes predSubsOK(c)
 //@   requires[C04] predConnOK(c) && predSubOf(sub, c) && err == nil
 //@   resolves[C07] cb exactly-once
-//@   ensures[C08] old(sub.Error()) != nil && !old(c.disposing) && old(predCounts(sub)) != 0 ==> sub.direct == old(sub.direct) - 1
+//@   ensures[C08] old(sub.Error()) != nil && !old(c.disposing) && old(predCounts(sub)) != 0 ==> sub.direct == ite(old(sub.direct) >= 1, old(sub.direct) - 1, 0)
 //@   safety[C15]
 
 //@ func (*wsConn).handleResourceResult
@@ -1247,7 +1247,7 @@ var _ rpc.Resources
 //@ closure (*wsConn).handleResourceResult#1
 //@   requires predConnOK(c) && predSubOf(sub, c)
 //@   resolves[C07] cb exactly-once
-//@   ensures[C08] err != nil && !old(c.disposing) && old(predCounts(sub)) != 0 ==> sub.direct == old(sub.direct) - 1
+//@   ensures[C08] err != nil && !old(c.disposing) && old(predCounts(sub)) != 0 ==> sub.direct == ite(old(sub.direct) >= 1, old(sub.direct) - 1, 0)
 //@   safety[C15]
 //@ closure (*wsConn).handleResourceResult#2
 //@   requires[C04] predConnOK(c) && predSubOf(sub, c) && err == nil
@@ -1326,9 +1326,9 @@ var _ rpc.Resources
 //@   requires predConnOK(c) && predSubOf(sub, c) && access != nil && (access.Error != nil || access.AccessResult != nil)
 //@   assumes predCountsOK()
 //@   resolves[C07] cb exactly-once
-//@   ensures[C17,C08] old(meta.IsDirectResponseStatus()) && !old(c.disposing) && old(predCounts(sub)) != 0 ==> sub.direct == old(sub.direct) - 1 && callcount("OnReady") == old(callcount("OnReady"))
+//@   ensures[C17,C08] old(meta.IsDirectResponseStatus()) && !old(c.disposing) && old(predCounts(sub)) != 0 ==> sub.direct == ite(old(sub.direct) >= 1, old(sub.direct) - 1, 0) && callcount("OnReady") == old(callcount("OnReady"))
 //@   ensures[C04,C08] !old(meta.IsDirectResponseStatus()) && !(access.Error == nil && access.Get) && !old(c.disposing) && old(predCounts(sub)) != 0 ==>
-//@       sub.direct == old(sub.direct) - 1 && callcount("OnReady") == old(callcount("OnReady"))
+//@       sub.direct == ite(old(sub.direct) >= 1, old(sub.direct) - 1, 0) && callcount("OnReady") == old(callcount("OnReady"))
 //@   callback cb requires[C04,C17] arg0 == nil
 //@   safety[C15]
 //@ closure (*wsConn).GetHTTPSubscription#3
